@@ -121,6 +121,7 @@ pub fn gen_cfg_sorter(rng: &mut Rng) -> SortCfg {
 pub fn generate<W: Write>(c: &mut Cases<W>, rng: &mut Rng, thorough: bool, which: &str) {
     let n = if thorough { 8000 } else { 500 };
     alloc_track::ENABLED.store(true, Relaxed);
+    alloc_track::MISALIGN.store(which == "C17", Relaxed);
     for i in 0..n {
         let cfg = gen_cfg_sorter(rng);
         let small_only = which == "C08" || i % 3 != 0;
@@ -148,6 +149,20 @@ pub fn generate<W: Write>(c: &mut Cases<W>, rng: &mut Rng, thorough: bool, which
             _ => {}
         }
         emit_sorter_case(c, which, &cfg, &ins);
+        if which != "C08" && i % 10 == 5 {
+            // nothing spilled before the end: a budget far above the input, many entries on a handful of keys
+            // (the routes that do not go through a chunk must merge them in insertion order all the same)
+            let big = SortCfg { threshold: 1 << 16, realloc: true, init_cap: if i % 20 == 5 { 1 << 16 } else { 256 }, max_chunks: 3, ..cfg.clone() };
+            let keys: Vec<Vec<u8>> = (0..rng.range(1, 5)).map(|_| gen_key(rng, 6)).collect();
+            let m = rng.range(40, 160) as usize;
+            let ins2: Vec<(Vec<u8>, Vec<u8>)> = (0..m).map(|j| {
+                let k = keys[rng.below(keys.len() as u64) as usize].clone();
+                let v = if big.stable { vec![j as u8, (j >> 8) as u8, 0x40 | (j % 7) as u8] } else { vec![(j % 50) as u8; 3] };
+                (k, v)
+            }).collect();
+            c.bump("no_spill_cases", 1);
+            emit_sorter_case(c, which, &big, &ins2);
+        }
         if which == "C08" && i % 3 == 0 {
             // the same inserts with a chunk creator that fails one of its first calls, the caller going on
             emit_sorter_case_cr(c, which, &cfg, &ins, Some(rng.below(5)));
@@ -226,6 +241,7 @@ pub fn generate<W: Write>(c: &mut Cases<W>, rng: &mut Rng, thorough: bool, which
         }
     }
     alloc_track::ENABLED.store(false, Relaxed);
+    alloc_track::MISALIGN.store(false, Relaxed);
     c.bump("alloc.tracked", alloc_track::TRACKED.load(Relaxed));
 }
 
@@ -257,6 +273,7 @@ fn emit_sorter_case_cr<W: Write>(c: &mut Cases<W>, which: &str, cfg: &SortCfg, i
     ctr.fail_at.set(crfail);
     let mf = LoggingConcat { calls: RefCell::new(Vec::new()), fail_at: None, sort: !cfg.stable };
     let mm0 = alloc_track::MISMATCHES.load(Relaxed);
+    crate::c_merge::CALL_LOG.with(|l| *l.borrow_mut() = Some(Vec::new()));
     let mut sorter = build(&cfg, mf, ctr.clone());
     let mut dead = false;
     for (k, v) in ins.iter() {
@@ -292,6 +309,16 @@ fn emit_sorter_case_cr<W: Write>(c: &mut Cases<W>, which: &str, cfg: &SortCfg, i
             Ok(Err(e)) => c.line(&format!("out1 err {}", e)),
             Err(_) => c.line("out1 panic -"),
         }
+        // every call the merge function received during the inserts and the final merge, in order: the key
+        // it was given and the value it returned
+        let log = crate::c_merge::CALL_LOG.with(|l| l.borrow_mut().take()).unwrap_or_default();
+        c.line(&format!("scalls {}", scan_hash(&log)));
+        if log.iter().map(|(k, v)| k.len() + v.len()).sum::<usize>() < 60_000 {
+            for (k, v) in log.iter() {
+                c.line(&format!("sc {} {}", hex(k), hex(v)));
+            }
+        }
+        c.bump("merge_calls.logged", log.len() as u64);
         c.line(&format!("creates {}", ctr.creates.get()));
         c.line(&format!("peak {}", ctr.peak.get()));
         c.line(&format!("leaked {}", ctr.live.get()));
@@ -327,12 +354,23 @@ fn emit_sorter_case_cr<W: Write>(c: &mut Cases<W>, which: &str, cfg: &SortCfg, i
         // run 3: merging the returned chunk cursors by hand
         let ctr3 = Rc::new(Counters::default());
         let mf3 = LoggingConcat { calls: RefCell::new(Vec::new()), fail_at: None, sort: !cfg.stable };
+        let chunk_scans: RefCell<Vec<String>> = RefCell::new(Vec::new());
         let r3 = catch(|| -> Result<Vec<(Vec<u8>, Vec<u8>)>, String> {
             let mut s = build(&cfg, mf3, ctr3.clone());
             for (k, v) in ins.iter() {
                 s.insert(k, v).map_err(|e| err_class(&e))?;
             }
-            let cursors = s.into_reader_cursors().map_err(|e| err_class(&e))?;
+            let mut cursors = s.into_reader_cursors().map_err(|e| err_class(&e))?;
+            // every chunk handed out, oldest first, scanned on its own (then reset: the merger below gets
+            // cursors that have already been used)
+            for cur in cursors.iter_mut() {
+                let mut items = Vec::new();
+                while let Some((k, v)) = cur.move_on_next().map_err(|e| err_class(&e))? {
+                    items.push((k.to_vec(), v.to_vec()));
+                }
+                chunk_scans.borrow_mut().push(scan_hash(&items).replace(' ', ":"));
+                cur.reset();
+            }
             let mf4 = LoggingConcat { calls: RefCell::new(Vec::new()), fail_at: None, sort: !cfg.stable };
             let mut b = Merger::builder(mf4);
             b.extend(cursors);
@@ -343,6 +381,10 @@ fn emit_sorter_case_cr<W: Write>(c: &mut Cases<W>, which: &str, cfg: &SortCfg, i
             }
             Ok(out)
         });
+        if r3.as_ref().map(|r| r.is_ok()).unwrap_or(false) {
+            c.line(&format!("chunks3 {}", chunk_scans.borrow().join(",")));
+            c.bump("chunks.scanned", chunk_scans.borrow().len() as u64);
+        }
         match r3 {
             Ok(Ok(out)) => c.line(&format!("out3 {}", scan_hash(&out))),
             Ok(Err(e)) => c.line(&format!("out3 err {}", e)),
